@@ -64,7 +64,7 @@ def sensitivity(args):
     patches = sorted(glob.glob(VERIF + "/mutants/*.diff")) + sorted(glob.glob(VERIF + "/seeded/*/patch.diff"))
     if args:
         patches = [p for p in patches if any(a in p for a in args)]
-    scratch = "/var/tmp/suiron-verif-selftest"
+    scratch = os.environ.get("SELFTEST_SCRATCH", "/var/tmp/suiron-verif-selftest")
     tree = scratch + "/tree"
     shutil.rmtree(scratch, ignore_errors=True)
     os.makedirs(scratch)
